@@ -33,8 +33,8 @@ def c14(c):
         "c14_order assumes the submissions of one connection are ordered as [wf] says (upgrade job first, messages in wire order, one close job after the closed flag); "
         "it does NOT hold for connections transferred to the poller (BlockingModTrasferConnToPoller): there the open handler runs outside the connection's job queue and, "
         "under EPOLLONESHOT, message callbacks do too (wsc.Execute = SyncExecutor) - the harness reports those as *-transferred classes",
-        "a bounded send queue (BlockingModSendQueueMaxSize > 0) can refuse a fragment in the middle of a message (result RFull in the model: the accepted prefix stays "
-        "contiguous on the wire, but the peer then sees an unfinished message); the harness runs with the default, unbounded queue",
+        "a bounded send queue (BlockingModSendQueueMaxSize > 0) refuses a WriteMessage as a whole before its first fragment is queued (c14_all_or_none; "
+        "the defect that it could refuse half-way is fixed in /repo, the signature partial-message-queue-full stays armed: one bounded-queue cell per round)",
     ]
     args = ["-n", n(c, 4, 30), "-qn", n(c, 600, 20000)]
     if c.tier == "thorough":
@@ -57,7 +57,8 @@ MANIFEST = {
              "hand-over; every queue bound, every answer of Conn.Write, every action sequence): c14_whole - each call's accepted frames are a prefix of its frames (all of them when it "
              "returned nil, none when refused as closed), what was handed to the socket is a prefix of the per-call accepted sequences concatenated in lock order, and without a socket "
              "error the wire is that prefix and the rest is exactly: frame in the drainer's hand, queued frames, frames freed by CloseAndClean - so no frame of another call can sit "
-             "inside a message; c14_no_loss_no_dup - open, no socket error, no drainer alive: wire = accepted sequence, and the drainer's own steps always reach that state; "
+             "inside a message; c14_all_or_none - a call that returned nil has all its frames accepted, a call refused as closed or because the bounded queue has no room for the "
+             "whole message has none; c14_no_loss_no_dup - open, no socket error, no drainer alive: wire = accepted sequence, and the drainer's own steps always reach that state; "
              "c14_whole_messages - if moreover every call returned nil, the wire is the concatenation in lock order of the calls' whole frame sequences; "
              "c14_single_drainer - never a second drainer, none in direct mode, alive iff the queue is non-empty; c14_closed - a write after CloseAndClean is refused as a whole. "
              "Callback side (Callbacks.v): c14_order - for every websocket schedule (upgrade job, messages dispatched in wire order through Execute, closed flag, one MustExecute of "
@@ -76,7 +77,7 @@ MANIFEST = {
         note="Partial: the differential run is at the granularity of whole write calls (the per-fragment interleaving is excluded by the mutex, by inspection); the callback-side "
              "instantiation is by inspection + end-to-end oracle. Findings on the unchanged tree, all on connections TRANSFERRED to the poller: "
              "message callbacks (and even the close callback) run before / while the open handler runs; under ET+ONESHOT the close callback runs while a message callback is still "
-             "running and a message callback can start after it (signatures *-transferred); with a bounded send queue (not the default) a WriteMessage refused half-way leaves "
-             "an unfinished message on the wire (partial-message-queue-full).",
+             "running and a message callback can start after it (signatures *-transferred, recorded as known). Found and fixed while building this check: with a bounded send "
+             "queue a WriteMessage refused half-way left an unfinished message on the wire (partial-message-queue-full).",
         design="4/C14, 4/C05, Appendix D, F"),
 }
